@@ -176,17 +176,17 @@ func (r *PackfileReader) ReadObject() (objType int, b []byte, err error) {
 	if err != nil {
 		return
 	}
-	var read uint64 = 0
-	b = make([]byte, int(u))
-	for read < u {
-		n, err := r.r.Read(b[read:])
-		if err != nil && err != io.EOF {
-			return 0, nil, err
-		}
-		read += uint64(n)
-		if errors.Is(err, io.EOF) && read < u {
-			return 0, nil, io.ErrUnexpectedEOF
-		}
+	if u > math.MaxInt64 {
+		return 0, nil, fmt.Errorf("reading object: length %d is too large", u)
+	}
+	// the announced length comes from the stream: grow the buffer as data
+	// actually arrives instead of allocating it up front
+	b, err = io.ReadAll(io.LimitReader(r.r, int64(u)))
+	if err != nil {
+		return 0, nil, err
+	}
+	if uint64(len(b)) < u {
+		return 0, nil, io.ErrUnexpectedEOF
 	}
 	return
 }
